@@ -84,7 +84,7 @@ class Check:
 
     # ---- (A) --------------------------------------------------------------------------------
     def model(self, module, cfg, workers=NCPU, timeout=3000, coverage=False, simulate=None, depth=None,
-              require_actions=(), env=None, allow_violation=False, heap="8g"):
+              require_actions=(), env=None, allow_violation=False, heap="8g", emits_all=True):
         """Run a bounded instance spec/mc/<module>.tla with spec/mc/<cfg>.  A counterexample or error on the
         model itself is a machinery error (it cannot be caused by editing /repo)."""
         for ext in (".tla",):
@@ -96,6 +96,8 @@ class Check:
                     simulate=simulate, depth=depth, seed=self.seed if simulate else None, env=env, heap=heap)
         if not allow_violation:
             tlc_ok(r, "%s/%s" % (module, os.path.basename(cfgp)))
+        if emits_all and r.json_lines and not simulate and len(r.json_lines) != r.distinct - r.init_states:
+            raise MachineryError("%s: %d behaviours emitted, %d expected (torn output?)" % (module, len(r.json_lines), r.distinct - r.init_states))
         self.states += r.distinct
         self.transitions += r.generated
         self.model_runs.append({"module": module, "cfg": os.path.basename(cfgp), "distinct_states": r.distinct,
